@@ -126,6 +126,10 @@ public:
 
     void compute(ConstGenericMatrix& mat)
     {
+        // The results of an earlier compute() are gone as soon as this one starts:
+        // if it throws, the accessors must not hand back stale or unfinished numbers
+        m_computed = false;
+
         using std::abs;
 
         // A very small value, but 1.0 / near_0 does not overflow
